@@ -638,7 +638,7 @@ pub fn run(p: &Params) -> (Stats, &'static str) {
     sim::install_observer();
     let mut st = Stats::new();
     let base = p.shard_seed("C13");
-    let n = p.share(if p.tier_thorough { 6_400_000 } else { 48_000 });
+    let n = p.share(if p.tier_thorough { 3_200_000 } else { 48_000 });
     // `--only credit` (job of C03: "one write consumes exactly one unit of credit" also holds for the frames the bridge sends):
     // the same executions, only the credit rules give verdicts
     let only_credit = p.get("only") == Some("credit");
